@@ -2,6 +2,8 @@
 
 package quickfix
 
+import "time"
+
 func init() {
 	verifRegister("C02_seq", VerifHarness_C02_seq)
 	verifRegister("C02_par", VerifHarness_C02_par)
@@ -225,4 +227,62 @@ func VerifHarness_C02_backpressure() {
 		verifAssert(wire[i].seq == N+i, "backpressure-in-increasing-order-without-holes")
 	}
 	verifAssert(len(r.s.toSend) == 0, "backpressure-queue-drained")
+}
+
+func init() { verifRegister("C02_reset", VerifHarness_C02_reset) }
+
+// C02_reset: a Logon that carries ResetSeqNumFlag=Y restarts the numbering while it is being prepared (the store's next
+// number is N > 1 at that moment): it goes out as number 1, is stored under 1, and the messages after it follow from 2.
+// Two routes: the daily reset time passes while logged on (CheckResetTime), and an initiator whose application adds
+// the flag to the Logon in ToAdmin.
+func VerifHarness_C02_reset() {
+	bs := BeginStringFIX42
+	if verifTier() == 1 {
+		bs = verifPickBeginString()
+	}
+	N := ndInt("N", 2, 50)
+	var r *verifRig
+	var lg *c02Log
+	if ndBool("reset-time-passes-while-logged-on") {
+		verifCase("reset-time")
+		r = verifNewSession(ndBool("initiator"), bs)
+		lg = &c02Log{r: r}
+		r.s.log = lg
+		r.setCounters(5, N)
+		r.verifLoggedOnState(stInSession, 5)
+		r.s.EnableResetSeqTime = true
+		r.s.ResetSeqTime = time.Date(2024, time.January, 10, 12, 0, 0, 0, time.UTC)
+		r.s.CheckResetTime(r.s, time.Date(2024, time.January, 10, 11, 59, 59, 0, time.UTC))
+		r.s.CheckResetTime(r.s, time.Date(2024, time.January, 10, 12, 0, 1, 0, time.UTC))
+	} else {
+		verifCase("application-adds-the-flag")
+		r = verifNewSession(true, bs)
+		lg = &c02Log{r: r}
+		r.s.log = lg
+		r.setCounters(5, N)
+		r.app.logonAsksReset = true
+		r.s.State = latentState{}
+		r.s.messageOut = nil
+		r.out = make(chan []byte, 24)
+		r.s.onAdmin(connect{messageOut: r.out})
+	}
+	r.pump()
+	verifAssert(len(lg.sent) == 1, "reset-one-logon-sent")
+	if len(lg.sent) != 1 {
+		return
+	}
+	fs, _ := verifScan(lg.sent[0])
+	w := verifWire{raw: lg.sent[0], fs: fs}
+	mt, _ := w.get(35)
+	fl, hasFl := w.get(141)
+	verifAssert(len(mt) == 1 && mt[0] == 'A' && hasFl && len(fl) == 1 && fl[0] == 'Y', "reset-logon-carries-the-flag")
+	k := 1
+	if r.s.IsLoggedOn() {
+		// a further message follows from 2
+		hb := NewMessage()
+		hb.Header.SetString(tagMsgType, "0")
+		r.s.send(hb)
+		k = 2
+	}
+	c02CheckNumbering(r, lg, 1, k, "reset")
 }
